@@ -353,8 +353,31 @@ def targets(ctx):
                 wt2 = wire_type_of(f2.type) if f2.card != "map" else 2
                 p2 = {0: 123, 1: b"\x07" * 8, 5: b"\x07" * 4, 2: b"zz"}[wt2]
                 inner.append(wire.make_record(f2.number, wt2, p2).raw)
-            grp = wire.tag(gnum, 3) + b"".join(inner) + wire.tag(gnum, 4)
+            nest = fault.get("nest", 0)
+            if nest:
+                # a group inside the group: with the SAME number (1) or another one (2); the records after the inner group
+                # still belong to the outer one
+                inum = gnum if nest == 1 else [n for n in (9998, 18, 1001, 78) if n not in used and n != gnum][0]
+                half = len(inner) // 2
+                grp = wire.tag(gnum, 3) + wire.tag(inum, 3) + b"".join(inner[:half]) + wire.tag(inum, 4) + b"".join(inner[half:]) + wire.tag(gnum, 4)
+            else:
+                grp = wire.tag(gnum, 3) + b"".join(inner) + wire.tag(gnum, 4)
             at = fault["pos"] % (len(recs) + 1)
+            if fault.get("unterminated"):
+                # the outer end marker is missing and the input ends there: a group cut in the middle
+                bad = b"".join(r.raw for r in recs) + grp[: -len(wire.tag(gnum, 4))]
+                labs.append(f"group_unterminated:nest{nest}")
+                try:
+                    c.rf(name).FromString(bad)
+                    return Eval([], discard="reference accepts an unterminated group")
+                except Exception:  # noqa: BLE001
+                    pass
+                entry = ["parse", "FromString", "load", "load_size", "load_delimited"][fault.get("entry", 0) % 5]
+                status, res = decode(name, bad, entry)
+                tally(name, bad, status)
+                if status == "ok":
+                    add("unterminated_group_accepted", f"nest{nest}|{entry}", f"input={bad.hex()[:200]} decoded={known_snapshot(name, res)!r:.200}")
+                return Eval(fails, nontrivial=True, labels=labs)
             bad = b"".join(r.raw for r in recs[:at]) + grp + b"".join(r.raw for r in recs[at:])
             want = norm(schema, mi, tree)
             try:
@@ -500,7 +523,8 @@ def targets(ctx):
         st.fixed_dictionaries({"kind": st.just("badwt"), "wt": st.integers(0, 1), "number": st.sampled_from([1, 2, 3, 16, 9999]), "pos": st.integers(0, 20)}),
         st.fixed_dictionaries({"kind": st.just("mismatch"), "field": st.integers(0, 40), "wt": st.integers(0, 3), "v": st.integers(0, 999), "after": st.booleans(), "pos": st.integers(0, 20), "entry": st.integers(0, 4)}),
         st.fixed_dictionaries({"kind": st.just("mismatch"), "field": st.integers(0, 40), "wt": st.integers(0, 3), "v": st.integers(0, 999), "after": st.booleans(), "pos": st.integers(0, 20), "entry": st.integers(0, 4)}),
-        st.fixed_dictionaries({"kind": st.just("group"), "field": st.integers(0, 40), "known_number": st.booleans(), "n_inner": st.integers(0, 5), "pos": st.integers(0, 20), "entry": st.integers(0, 4)}),
+        st.fixed_dictionaries({"kind": st.just("group"), "field": st.integers(0, 40), "known_number": st.booleans(), "n_inner": st.integers(0, 5), "pos": st.integers(0, 20), "entry": st.integers(0, 4),
+                               "nest": st.sampled_from([0, 0, 1, 1, 2]), "unterminated": st.sampled_from([False, False, True])}),
         st.fixed_dictionaries({"kind": st.just("inner_truncation"), "field": st.integers(0, 40), "pos": st.integers(0, 200)}),
         st.fixed_dictionaries({"kind": st.just("huge_tag"), "field": st.integers(0, 40), "k": st.integers(0, 5), "own_payload": st.booleans(), "pos": st.integers(0, 20), "entry": st.integers(0, 4)}),
         st.fixed_dictionaries({"kind": st.just("bad_utf8"), "field": st.integers(0, 40), "what": st.integers(0, 7), "keep_prefix": st.booleans(), "entry": st.integers(0, 4)}),
